@@ -39,7 +39,7 @@ BOUNDS = {
                 "element / every first-row column broken; mixed atol pairs over 5 values + None",
 }
 EXHAUSTIVE = {"quick": True, "thorough": True}
-CASE_TIMEOUT = 900
+CASE_TIMEOUT = 3600
 
 TYPES = ("State", "Povm", "Gate", "MProcess")
 ALL_TAGS = ("Q1", "Q1u", "Q1h", "Q3", "Q3g", "Q3h", "Q2", "Q6")
